@@ -649,3 +649,37 @@ Definition fl_generic (m : nsmap) (k : itree) : bool :=
   | Err _ => false
   end.
 Definition g_first_level (m : nsmap) (t : itree) : bool := forallb (fl_generic (i_nsd t ++ m)) (i_kids t).
+
+(* ------------------------------------------------- the composites of C11 *)
+(* parse, generate, and read the events back: by the specification of the event
+   protocol, and by the faithful model of the writer *)
+Definition roundtrip_spec (o : oracle) (m : nsmap) (p : node_id) (t : itree) : option itree :=
+  match tree_parse (pump o m p t) with
+  | Some v => itree_of_wevents (gen_any v)
+  | None => None
+  end.
+Definition roundtrip_written (o : oracle) (m : nsmap) (p : node_id) (t : itree) : option itree :=
+  match tree_parse (pump o m p t) with
+  | Some v => write_tree (gen_any v)
+  | None => None
+  end.
+Definition holder_roundtrip (c : wcfg) (o : oracle) (t : itree) : option itree :=
+  match wild_parse c (pump o [] [] t) with
+  | Ok r => match gen_root c r with Some evs => itree_of_wevents evs | None => None end
+  | Err _ => None
+  end.
+Definition holder_written (c : wcfg) (o : oracle) (t : itree) : option itree :=
+  match wild_parse c (pump o [] [] t) with
+  | Ok r => match gen_root c r with Some evs => write_tree evs | None => None end
+  | Err _ => None
+  end.
+
+(* XML well-formedness: attribute names of an element are distinct *)
+Definition has_key (k : str) (l : attrs) : bool := existsb (fun kv => str_eqb k (fst kv)) l.
+Fixpoint nodup_keys (a : attrs) : bool :=
+  match a with
+  | [] => true
+  | kv :: r => negb (has_key (fst kv) r) && nodup_keys r
+  end.
+Definition g_wf_node (m : nsmap) (t : itree) : bool := nodup_keys (i_atts t).
+Definition g_wf := tree_all g_wf_node.
